@@ -1,9 +1,10 @@
 #!/bin/bash
-# usage: run_demo.sh <test-name-substring> [repo]   -- runs a findings demo against a scratch copy of the repository
-set -e
+# usage: run_demo.sh <test-name-substring> [repo]   -- runs the findings demos against a scratch copy of the repository
 T=$1; REPO=${2:-/repo}
 S=$(mktemp -d /tmp/vf_demo.XXXX)
 trap 'rm -rf "$S"' EXIT
 rsync -a --exclude target --exclude .git "$REPO"/ "$S"/
 cat /verif/findings/f1_f2_demo.rs >> "$S"/zkabacus-crypto/src/proofs.rs
-cd "$S" && CARGO_TARGET_DIR=/verif/.cache/demo-target cargo test --offline -p zkabacus-crypto --lib "$T" 2>&1 | tail -25
+cat /verif/findings/f3_f6_demo_zkabacus.rs >> "$S"/zkabacus-crypto/src/lib.rs
+cat /verif/findings/f4_f5_demo_zkchannels.rs >> "$S"/zkchannels-crypto/src/serde.rs
+cd "$S" && CARGO_TARGET_DIR=/verif/.cache/demo-target cargo test --offline --no-fail-fast --features bincode -p zkabacus-crypto -p zkchannels-crypto --lib "$T" 2>&1 | grep -E '^test |test result|panicked|INVARIANT|FORGERY|error' | head -40
